@@ -37,11 +37,25 @@ static json run_writer_case(const json& c) {
         outs.push_back(path_k(0) + suffix);
         size_t pos = 0;
         bool tolerate = c.value("continue_after_exception", false);
+        int nsnap = 0;
+        // rotation onto the name that is being written (e.g. names derived from a clock that has not advanced): the output closed by it
+        // is copied aside at once, because the next close replaces it
+        auto rotate_same = [&]() {
+            wr->rotate_output(boost::any(path_k(k)));
+            std::string fin = path_k(k) + suffix, snap = fin + ".snap" + std::to_string(nsnap++);
+            std::string content;
+            json e = {{"rot_same", true}, {"final_exists", slurp(fin, content)}, {"snap", snap}};
+            if (e["final_exists"].get<bool>()) { std::ofstream o(snap, std::ofstream::binary); o.write(content.data(), static_cast<std::streamsize>(content.size())); }
+            log.push_back(e);
+        };
         for (auto& s : c.at("steps")) {
             if (tolerate) {
                 // fault scenarios: a failing step is logged and the sequence goes on
                 try {
-                    if (s.contains("rot")) {
+                    if (s.contains("rot") && s.value("same", false) && kind != "fd") {
+                        rotate_same();
+                    }
+                    else if (s.contains("rot")) {
                         k++;
                         if (kind == "fd") { int fd = ::open(path_k(k).c_str(), O_CREAT | O_WRONLY | O_TRUNC, 0644); wr->rotate_output(boost::any(fd)); }
                         else wr->rotate_output(boost::any(path_k(k)));
@@ -62,7 +76,10 @@ static json run_writer_case(const json& c) {
                 }
                 continue;
             }
-            if (s.contains("rot")) {
+            if (s.contains("rot") && s.value("same", false) && kind != "fd") {
+                rotate_same();
+            }
+            else if (s.contains("rot")) {
                 k++;
                 if (kind == "fd") { int fd = ::open(path_k(k).c_str(), O_CREAT | O_WRONLY | O_TRUNC, 0644); wr->rotate_output(boost::any(fd)); }
                 else wr->rotate_output(boost::any(path_k(k)));
